@@ -119,15 +119,76 @@ theorem LineOK_fillers {fs : List Filler} (h : fs.all Filler.wf = true) : ∀ l 
   obtain ⟨f, hf, rfl⟩ := hl
   exact LineOK_filler (by simpa using (List.all_eq_true.1 h) f hf)
 
+theorem LineOK_optLog {log : Option LogPrefix} (h : log.all LogPrefix.wf = true) : LineOK (optLog log) := by
+  cases log with
+  | none => exact LineOK_nil
+  | some p =>
+    simp only [Option.all_some, LogPrefix.wf, Bool.and_eq_true, List.all_eq_true] at h
+    have ht : LineOK p.text := LineOK_of_isPrint (fun b hb => (h.2 b hb).1)
+    simp only [optLog, LogPrefix.print]
+    lineok
+    exact ⟨ht, by decide⟩
+
+theorem LineOK_word {n : Str} (h : ∀ b ∈ n, isWord b = true) : LineOK n := by
+  apply LineOK_of_isPrint
+  intro b hb
+  have := h b hb
+  simp only [isWord, isDigit, Bool.or_eq_true, decide_eq_true_eq, beq_iff_eq] at this
+  simp only [isPrint, decide_eq_true_eq]; omega
+
+theorem LineOK_mapLine {env : MapEnv} {l : MapLine} (h : l.wfIn env = true) : LineOK l.print := by
+  cases l with
+  | entry log e =>
+    simp only [MapLine.wfIn, Bool.and_eq_true] at h
+    exact LineOK_append (LineOK_optLog h.1.1) (LineOK_mapEntry h.1.2)
+  | entryRef log e name suffix =>
+    simp only [MapLine.wfIn, Bool.and_eq_true] at h
+    obtain ⟨⟨⟨⟨hlog, hn⟩, _⟩, _⟩, hres⟩ := h
+    cases hq : env.lookup name with
+    | none => simp [hq] at hres
+    | some v =>
+      simp only [hq] at hres
+      have hall := LineOK_mapEntry hres
+      rw [e.withFile_print] at hall
+      simp only [LineOK_append_iff] at hall
+      obtain ⟨hpre, hsp, ⟨_, hsfx⟩, hpost⟩ := hall
+      simp only [MapLine.print]
+      rw [e.withFile_print]
+      have hname : LineOK name := LineOK_word (attrNameOK_word hn)
+      lineok
+      exact ⟨LineOK_optLog hlog, hpre, ⟨by decide, hname, hsfx⟩, hpost⟩
+  | attr log indent name spaced value =>
+    simp only [MapLine.wfIn, Bool.and_eq_true] at h
+    obtain ⟨⟨⟨⟨hlog, hn⟩, hv⟩, _⟩, _⟩ := h
+    simp only [attrValueOK, Bool.and_eq_true, List.all_eq_true] at hv
+    have hname : LineOK name := LineOK_word (attrNameOK_word hn)
+    have hval : LineOK value := LineOK_of_isPrint (fun b hb => (hv.2 b hb).1.1)
+    have heq : LineOK (if spaced then asc " = " else asc "=") := by cases spaced <;> decide
+    simp only [MapLine.print]
+    lineok
+    exact ⟨LineOK_optLog hlog, hname, heq, hval⟩
+
+theorem LineOK_wfLines {env : MapEnv} {es : List (List Filler × MapLine)} (h : wfLines env es = true) :
+    ∀ p ∈ es, (∀ l ∈ printFillers p.1, LineOK l) ∧ LineOK p.2.print := by
+  induction es generalizing env with
+  | nil => intro p hp; cases hp
+  | cons q es ih =>
+    simp only [wfLines, Bool.and_eq_true] at h
+    intro p hp
+    rcases List.mem_cons.1 hp with rfl | hp
+    · exact ⟨LineOK_fillers h.1.1, LineOK_mapLine h.1.2⟩
+    · exact ih h.2 p hp
+
 theorem LineOK_bodyLines {m : MapSection} (h : m.wf = true) : ∀ l ∈ m.bodyLines, LineOK l := by
   intro l hl
-  simp only [MapSection.wf, Bool.and_eq_true, List.all_eq_true] at h
+  simp only [MapSection.wf, Bool.and_eq_true] at h
   simp only [MapSection.bodyLines, List.mem_append, List.mem_flatMap] at hl
   rcases hl with ⟨p, hp, hl⟩ | hl
-  · rcases hl with hl | hl
-    · exact LineOK_fillers (by simpa [List.all_eq_true] using (h.1 p hp).1) l hl
-    · simp at hl; subst hl; exact LineOK_mapEntry (h.1 p hp).2
-  · exact LineOK_fillers (by simpa [List.all_eq_true] using h.2) l hl
+  · have := LineOK_wfLines h.1 p hp
+    rcases hl with hl | hl
+    · exact this.1 l hl
+    · simp at hl; subst hl; exact this.2
+  · exact LineOK_fillers h.2 l hl
 
 theorem LineOK_tailLines {sentinel : Str} (hs : LineOK sentinel) {map : Option MapSection}
     (h : ∀ m, map = some m → m.wf = true) : ∀ l ∈ tailLines sentinel map, LineOK l := by
